@@ -297,7 +297,7 @@ func (g *G) argument(svcBefore, params []string) cfg.Val {
 	case k == 10:
 		return cfg.Str("$gontainer")
 	case k < 13:
-		return cfg.Str(choose(g, "!value ", "!value  ") + g.valueExpr())
+		return cfg.Str(choose(g, "!value ", "!value  ", "!value\t", "!value \t ") + g.valueExpr())
 	case k < 15 && len(params) > 0:
 		return cfg.Str("%" + params[g.pick(len(params))] + "%")
 	default:
@@ -425,6 +425,47 @@ func Behaviour(r *rand.Rand, o Opts) *cfg.Config {
 	}
 	if o.StdPkgs && g.chance(0.6) {
 		g.addStdServices()
+	}
+	// name twins: names that differ only in their separators or in letter case (a.b1 / a-b1 / a_b1 / ab1 / A.b1) are different
+	// names; anything the generated code derives from a name must keep them apart
+	if g.chance(0.3) {
+		variants := func(n string) []string {
+			var out []string
+			for _, sep := range []string{".", "-", "_", ""} {
+				v := n
+				for _, old := range []string{".", "-", "_"} {
+					v = strings.ReplaceAll(v, old, sep)
+				}
+				out = append(out, v, strings.ToUpper(v[:1])+v[1:], strings.ToLower(v[:1])+v[1:])
+			}
+			return out
+		}
+		taken := map[string]bool{}
+		for _, sv := range c.Services {
+			taken[sv.Name] = true
+		}
+		if len(c.Services) > 0 {
+			base := c.Services[g.pick(len(c.Services))].Name
+			for _, v := range variants(base) {
+				if !taken[v] && ref.IsYamlToken(v) && g.chance(0.5) {
+					taken[v] = true
+					c.Services = append(c.Services, cfg.Service{Name: v, Constructor: cfg.P(g.Ref(g.anyPkg(), "New")), Args: []cfg.Val{cfg.Str(v)}})
+				}
+			}
+		}
+		ptaken := map[string]bool{}
+		for _, kv := range c.Params {
+			ptaken[kv.K] = true
+		}
+		if len(c.Params) > 0 {
+			base := c.Params[g.pick(len(c.Params))].K
+			for _, v := range variants(base) {
+				if !ptaken[v] && ref.IsYamlToken(v) && g.chance(0.5) {
+					ptaken[v] = true
+					c.Params = append(c.Params, cfg.KV{K: v, V: cfg.Str("twin of " + base)})
+				}
+			}
+		}
 	}
 	// text twins: a parameter whose value is the very text of a special argument used by a service (`@svc`, `!tagged t`,
 	// `!value X`, `$gontainer`): as a parameter it is a plain string, as an argument it is the special form
@@ -729,7 +770,10 @@ func (g *G) service(name string, before, params []string) cfg.Service {
 		if g.chance(tagP) {
 			tag := cfg.Tag{Name: t}
 			if g.chance(0.6) {
-				tag.Prio = cfg.P(choose(g, -2147483648, -5, -1, 0, 0, 1, 1, 5, 2147483647))
+				tag.Prio = cfg.P(choose(g, -2147483648, -5, -1, 0, 0, 1, 1, 5, 2147483647,
+					// neighbours that a float64 cannot tell apart, and the ends of the range
+					9007199254740992, 9007199254740993, 9007199254740994, -9007199254740993, -9007199254740992,
+					9223372036854775807, 9223372036854775806, -9223372036854775808, -9223372036854775807, 2147483648, -2147483649))
 			}
 			s.Tags = append(s.Tags, tag)
 		}
